@@ -152,8 +152,17 @@ def parse_shim(text):
 
 def shim_effects(paths, recs, before):
     """state-changing calls that SUCCEEDED -> list of (class tuple, kind, rec).  An open with O_CREAT of an existing
-    path without O_TRUNC changes nothing; fsync changes nothing."""
+    path without O_TRUNC changes nothing; fsync changes nothing; an ftruncate / fallocate that leaves the size as it is
+    changes nothing (file sizes are tracked from the before-snapshot through the log)."""
     eff = []
+    size = {}
+
+    def cur(p):
+        if p not in size:
+            b = before.get(p)
+            size[p] = len(b[1]) if (b and b[0] == 'f') else 0
+        return size[p]
+    import re as _re
     for r in recs:
         c, p = r['call'], r['path']
         if 'INJECTED-ERROR' in r['extra'] or 'KILL' in r['extra']:
@@ -169,6 +178,9 @@ def shim_effects(paths, recs, before):
                 kinds.append('create')
             if 'T' in fl:
                 kinds.append('truncate' if (p in before or 'create' not in kinds) else 'create')
+                if cur(p) == 0 and p in before and 'create' not in kinds and paths.classify(p)[0] != 'lock':
+                    kinds.remove('truncate')          # truncating an empty file
+                size[p] = 0
             for k in dict.fromkeys(kinds):
                 if k == 'create' and p in paths.parity:
                     continue         # absent parity file == empty parity file (parity_create opens with O_CREAT)
@@ -177,12 +189,36 @@ def shim_effects(paths, recs, before):
         if c in ('pwrite', 'write'):
             if r['ret'] <= 0:
                 continue
+            m = _re.search(r'off=(\d+)', r['extra'])
+            end = (int(m.group(1)) if m else cur(p)) + r['ret']
+            if end > cur(p):
+                size[p] = end
         elif r['ret'] != 0:
             continue
+        if c in ('ftruncate', 'ftruncate64', 'truncate'):
+            m = _re.search(r'len=(-?\d+)', r['extra'])
+            n = int(m.group(1)) if m else -1
+            if n == cur(p):
+                continue
+            size[p] = n
+        if c in ('fallocate', 'fallocate64', 'posix_fallocate'):
+            m = _re.search(r'off=(-?\d+) len=(-?\d+)', r['extra'])
+            end = int(m.group(1)) + int(m.group(2)) if m else -1
+            if end <= cur(p):
+                continue
+            size[p] = end
         k = KIND.get(c, c)
         eff.append((paths.classify(p), k, r))
         if c == 'rename':
-            eff.append((paths.classify(r['extra'].strip()), 'rename-from', r))
+            src = r['extra'].strip()
+            eff.append((paths.classify(src), 'rename-from', r))
+            if src in size:
+                size[p] = size.pop(src)
+            else:
+                size[p] = cur(src)
+                size.pop(src, None)
+        if c in ('unlink', 'remove'):
+            size[p] = 0
     return eff
 
 
